@@ -47,6 +47,7 @@ type rollCfg struct {
 	maxAge   int32
 	conform  bool // replay every execution's filesystem call log on the real filesystem
 	variant  string
+	openOnly bool // only file creations may fail
 }
 
 type rollObs struct {
@@ -85,6 +86,9 @@ func ticksUsed(x *zzvrt.Exec) int {
 
 func (c rollCfg) run(o *rollObs) {
 	x := zzvrt.Cur()
+	if c.openOnly {
+		x.FS.FaultOps = map[string]bool{"open": true}
+	}
 	a := &log.RollingFileAppender{FileDir: rollDir, FileName: rollName, Rotation: log.TimeRotation{Interval: time.Hour}, MaxAge: c.maxAge}
 	zzvrt.Atomic(func() {
 		x.FS.MkdirAll(rollDir)
@@ -268,8 +272,10 @@ func rollCheck(prop string, c rollCfg, o *rollObs, x *zzvrt.Exec) (string, []zzv
 		}
 		switch {
 		case len(locs) == 0:
+			if !faulted || c.openOnly {
+				add("C13", "write-lost", k, fmt.Sprintf("write %q is in no file (files=%v; failed creations: %v)", w.id, names, faulted))
+			}
 			if !faulted {
-				add("C13", "write-lost", k, fmt.Sprintf("write %q is in no file (files=%v)", w.id, names))
 				add("C19", "write-lost", k, fmt.Sprintf("write %q is in no file although no I/O fault was injected", w.id))
 			}
 		case len(locs) > 1:
@@ -428,6 +434,9 @@ func init() {
 		reg(prop, rollCfg{writers: [][]string{{"a0", "a1"}, {"b0", "b1"}}}, "qt", bb{2, 2, 0}, bb{3, 3, 0})
 		reg(prop, rollCfg{writers: [][]string{{"a0"}, {"b0"}, {"c0"}}}, "t", bb{2, 2, 0}, bb{2, 3, 0})
 	}
+	// C13 with failing file creations (and nothing else failing): every write still lands exactly once
+	reg("C13", rollCfg{writers: [][]string{{"a0", "a1", "a2", "a3"}}, openOnly: true, variant: "failed-creations"}, "qt", bb{1, 3, 2}, bb{2, 3, 3})
+	reg("C13", rollCfg{writers: [][]string{{"a0", "a1"}, {"b0", "b1"}}, openOnly: true, variant: "failed-creations"}, "qt", bb{1, 2, 2}, bb{2, 3, 2})
 	// model <-> OS: every execution of these scenarios is replayed on the real filesystem
 	for _, prop := range []string{"C13", "C19", "C20"} {
 		f := 0
